@@ -4,6 +4,7 @@ import (
 	"encoding/json"
 	"fmt"
 	"log/slog"
+	"math/bits"
 	"runtime"
 	"sync"
 	"sync/atomic"
@@ -196,6 +197,74 @@ func execQueueLong(c *child.Ctx, k queueCase, cj []byte) {
 		}
 	}
 	c.Count("long_run_additions", int64(k.Adds))
+}
+
+// execQueueVeryLong: a session of tens of millions of additions (the proxy runs for
+// months) or a capacity of tens of thousands.  Snapshots are compared around every
+// power of two of the number of additions, around the capacity, and at regular
+// intervals in between; the messages are small.
+func execQueueVeryLong(c *child.Ctx, k queueCase, cj []byte) {
+	q := circularQueue.NewCircularQueue(k.Cap)
+	light := func(id int) handler.Message {
+		return handler.Message{MessageType: qtype(id), Timestamp: uint(id) + 1}
+	}
+	window := 2*k.Cap + 3
+	if window > 40 {
+		window = 40
+	}
+	check := func(i int) bool {
+		if i <= window || i >= k.Adds-window {
+			return true
+		}
+		if d := i - k.Cap; d >= -3 && d <= 12 {
+			return true
+		}
+		if k.Cap > 1000 {
+			return false
+		}
+		if i%8191 == 0 {
+			return true
+		}
+		// distance to the nearest power of two
+		p := 1 << uint(bits.Len(uint(i))-1)
+		return i-p <= window || 2*p-i <= window
+	}
+	snaps := 0
+	for i := 1; i <= k.Adds; i++ {
+		q.Add(light(i - 1))
+		if !check(i) {
+			continue
+		}
+		snaps++
+		got := q.GetMessages()
+		want := k.Cap
+		if i < want {
+			want = i
+		}
+		ok := len(got) == want
+		for j := 0; ok && j < len(got); j++ {
+			if qid(got[j]) != i-want+j || got[j].MessageType != qtype(i-want+j) {
+				ok = false
+			}
+		}
+		if !ok {
+			show := ids(got)
+			if len(show) > 24 {
+				show = append(append([]int(nil), show[:12]...), show[len(show)-12:]...)
+			}
+			c.Violate("snapshot-wrong", fmt.Sprintf("capacity %d after %d additions: the snapshot holds %d messages (first and last identities %v), expected the last %d in order", k.Cap, i, len(got), show, want), cj)
+			return
+		}
+		if i%4096 == 0 {
+			tick()
+		}
+	}
+	if n := sizeUnderLock(q); n > k.Cap {
+		c.Violate("holds-more-than-capacity", fmt.Sprintf("capacity %d queue holds %d items after %d additions", k.Cap, n, k.Adds), cj)
+		return
+	}
+	c.Count("very_long_run_additions", int64(k.Adds))
+	c.Count("very_long_run_snapshots_compared", int64(snaps))
 }
 
 // concurrent histories, checked for linearizability against the list model
@@ -459,6 +528,8 @@ func monC18(c *child.Ctx, replay json.RawMessage) {
 			execQueueLong(c, k, replay)
 		case "heldlock":
 			execQueueHeldLock(c, k, replay)
+		case "verylong":
+			execQueueVeryLong(c, k, replay)
 		case "stress":
 			for i := 0; i < 20 && c.NViolations() == 0; i++ {
 				execQueueStress(c, k, replay)
@@ -521,6 +592,26 @@ func monC18(c *child.Ctx, replay json.RawMessage) {
 		}
 		cj := c.BeginV(k)
 		execQueueLong(c, k, cj)
+		c.Eval(ref.Hash64(cj), true)
+	}
+	// (2a) sessions of 2^24 additions and more with capacities that are not powers of
+	// two, and capacities of tens of thousands
+	very := []queueCase{{Kind: "verylong", Cap: 3, Adds: 1<<24 + 50}, {Kind: "verylong", Cap: 65541, Adds: 65541 + 40}, {Kind: "verylong", Cap: 20, Adds: 1<<24 + 90},
+		{Kind: "verylong", Cap: 70001, Adds: 70001 + 12}, {Kind: "verylong", Cap: 7, Adds: 1<<22 + 60}, {Kind: "verylong", Cap: 1<<17 + 3, Adds: 1<<17 + 20}}
+	if c.Thorough() {
+		very = append(very, queueCase{Kind: "verylong", Cap: 5, Adds: 1<<26 + 40}, queueCase{Kind: "verylong", Cap: 6, Adds: 1<<25 + 40}, queueCase{Kind: "verylong", Cap: 1, Adds: 1<<24 + 9},
+			queueCase{Kind: "verylong", Cap: 1<<20 + 1, Adds: 1<<20 + 9}, queueCase{Kind: "verylong", Cap: 12, Adds: 1<<24 + 70}, queueCase{Kind: "verylong", Cap: 65536, Adds: 65536 + 20}, queueCase{Kind: "verylong", Cap: 65537, Adds: 2*65537 + 5})
+	}
+	for i, k := range very {
+		if (2*i+1)%c.NBatch != c.Batch {
+			continue
+		}
+		cj := c.BeginV(k)
+		// one goroutine, tens of millions of calls: in a process without the race
+		// detector if the driver has built one
+		if !runInPlainProcess(c, cj, fmt.Sprintf("a run of %d additions to a queue of capacity %d", k.Adds, k.Cap)) {
+			execQueueVeryLong(c, k, cj)
+		}
 		c.Eval(ref.Hash64(cj), true)
 	}
 	// (2b) a reader that holds the queue's (exported) read lock for a while - a report
